@@ -12,15 +12,24 @@ RULE = ('case = (table, backend); every case runs all exact miners (from_context
         'close_by_one_objectwise_fbarray, sofia with L_max = #concepts); exhaustive over all tables of the tier scope x 3 '
         'backends, then seeded random larger tables incl. the structured families of gen.py (nominal/ordinal/'
         'contranominal scales, duplicate rows/columns, all-true/all-false, empty row, full column); non-trivial = table '
-        'neither all-true nor all-false with at least 3 concepts; distinct = distinct (table, backend)')
-EXHAUSTIVE = {'quick': 'all tables n,m<=3 (682) x 3 backends x 10 miner options',
-              'thorough': 'all tables with n*m<=12, n,m<=4 (9 386) x 3 backends x 10 miner options'}
-EXPLANATION = ('the implementation\'s concept lists are judged by the Lean oracle (Spec.isConcept / Spec.allConcepts: every '
+        'neither all-true nor all-false with at least 3 concepts; distinct = distinct (table, backend, history). '
+        'Streams: two-digit = directed tables with 13..16 objects and/or attributes (all-pairs scales, nominal/ordinal '
+        'scales, sparse and dense random tables, both orientations, every Lindig direction); history = ONE context object '
+        'used by every miner, renamed through the public setters object_names/attribute_names (fresh names, rotation of the '
+        'old names, swap, caller-side mutation of the list that was assigned), touched by .T / hash_fixed, and used by every '
+        'miner again; each build is judged by the oracle and by the names the context carries at that moment')
+EXHAUSTIVE = {'quick': 'all tables n,m<=3 (682) x 3 backends x 12 miner options, once on a fresh context and once as the '
+                       '3-phase history build-all / rename objects+attributes / build-all / rotate names / build-all',
+              'thorough': 'all tables with n*m<=12, n,m<=4 (9 386) x 3 backends x 12 miner options; histories as in quick'}
+EXPLANATION = ('the implementation\'s concept lists are judged by the Lean oracle (Spec.isConcept / Spec.allConceptsFast = brute force over the '
+               'smaller side, proved equal to Spec.allConcepts by Fca.C02.oracle_fast_exact: every '
                'pair a concept, none twice, none missing); the models\' own outputs are compared with the oracle too '
                '(kind harness) and, where Python\'s enumeration order is deterministic, with the implementation\'s order '
                '(kind correspondence). Theorems Fca.C02.* prove every miner model exact for all tables, all backends and '
                'all iteration orders (CbO both variants + dispatch, Lindig both directions, non-binding Sofia, from_context).')
-ASSUMPTIONS = ['the Lindig-based options (default, Lindig, lindig_algorithm) are run only on tables with at most 130 concepts: '
+ASSUMPTIONS = ['histories change a context only through its public name setters (the relation of a FormalContext has no setter); '
+               'each build is judged against the names read back from the context at that moment',
+               'the Lindig-based options (default, Lindig, lindig_algorithm) are run only on tables with at most 140 concepts: '
                'the implementation is super-linear there (512 concepts take 2 minutes per call)',
                'tables have n>=1 rows and m>=1 columns; object/attribute names pairwise distinct',
                'Sofia is exact only when L_max >= number of concepts (the harness passes L_max = that number) and min_supp=0',
@@ -31,17 +40,17 @@ TRUSTED = ['BinTable.T / FormalContext.T and to_bin_attr_extents are modelled ge
 CHUNK = 60
 REQUESTS_NEED_IMPL = True
 
-OBJ = ['g%d' % i for i in range(16)]
-ATT = list('abcdefghijklmnop')
+OBJ = ['g%d' % i for i in range(16)] + ['g%d' % i for i in range(16, 400)]
+ATT = list('abcdefghijklmnop') + ['a%d' % j for j in range(16, 400)]
 
 # options whose enumeration order is deterministic in Python (emission order / sort_concepts order)
-ORDERED = ('fba', 'obj', 'cbo', 'CbO', 'default', 'Lindig', 'Sofia')
+ORDERED = ('fba', 'obj', 'cbo', 'CbO', 'default', 'Lindig', 'LindigT', 'LindigF', 'Sofia')
 UNORDERED = ('lindigT', 'lindigF', 'sofia')
 OPTIONS = ORDERED + UNORDERED
 # the implementation's lindig_algorithm / ConceptLattice(children_dict=...) is super-linear in the number of concepts
 # (measured: 128 concepts 0.2 s, 256: 2.5 s, 512: 124 s), so the Lindig-based options are run up to this many concepts
-LINDIG_OPTS = ('default', 'Lindig', 'lindigT', 'lindigF')
-LINDIG_CAP = 130
+LINDIG_OPTS = ('default', 'Lindig', 'LindigT', 'LindigF', 'lindigT', 'lindigF')
+LINDIG_CAP = 140
 
 
 def n_concepts(rows):
@@ -73,21 +82,119 @@ def _corpus():
                 yield c
 
 
+# ---- (H3) tables with two-digit indexes ---------------------------------------------------------------------------
+
+def _transpose(rows):
+    return [[rows[i][j] for i in range(len(rows))] for j in range(len(rows[0]))]
+
+
+def pairs_scale(k, subsets):
+    """k objects; one attribute per object and one per listed subset: every singleton and every listed subset
+    (pairs, triples) is an extent, so many small extents with one- and two-digit members exist side by side."""
+    cols = [[int(g == i) for g in range(k)] for i in range(k)] + [[int(g in sub) for g in range(k)] for sub in subsets]
+    return _transpose(cols)
+
+
+def two_digit_tables(rng, tier):
+    """directed tables whose iterated side has 13..16 elements; every table is also used transposed."""
+    ks = (13, 14) if tier == 'quick' else (13, 14, 15, 16)
+    for k in ks:
+        yield 'allpairs', pairs_scale(k, list(itertools.combinations(range(k), 2)))
+    for k in (13, 14, 15, 16):
+        # pairs and triples over a random half of the objects (always some low and some high indexes)
+        low = rng.sample(range(0, 10), 4)
+        high = rng.sample(range(10, k), min(3, k - 10))
+        pool = sorted(low + high)
+        subs = [c for r in (2, 3) for c in itertools.combinations(pool, r) if rng.random() < 0.6]
+        yield 'subsets', pairs_scale(k, subs)
+        yield 'ordinal', [[int(j <= i) for j in range(k)] for i in range(k)]
+        yield 'nominal+', [[int(j == i or (j == k and i % 3 == 0) or (j == k + 1 and i in (1, 2, 12))) for j in range(k + 2)]
+                           for i in range(k)]
+    nrand = 6 if tier == 'quick' else 40
+    made = 0
+    while made < nrand:
+        n = rng.randint(13, 16)
+        m = rng.randint(13, 16) if made % 3 == 2 else rng.randint(2, 6)
+        d = rng.choice((0.1, 0.2, 0.85, 0.93)) if m >= 13 else rng.choice((0.2, 0.5, 0.8))
+        t = [[int(rng.random() < d) for _ in range(m)] for _ in range(n)]
+        if n_concepts(t) <= LINDIG_CAP:
+            made += 1
+            yield 'random', t
+
+
+# ---- (H1/H2) histories on one context object ------------------------------------------------------------------------
+
+TOUCH = (['T'], ['hash'], ['TT'])
+
+
+def full_history():
+    """every miner, rename both, every miner, rotate the object names / swap attribute names, every miner"""
+    ops = [['T'], ['hash']]
+    ops += [['build', o] for o in OPTIONS]
+    ops += [['rename', 'both', 'fresh:x']]
+    ops += [['build', o] for o in OPTIONS]
+    ops += [['rename', 'obj', 'rot'], ['rename', 'att', 'swap']]
+    ops += [['build', o] for o in OPTIONS]
+    return ops
+
+
+def random_history(rng, length):
+    ops = []
+    k = 0
+    for _ in range(length):
+        r = rng.random()
+        if r < 0.45:
+            ops.append(['build', rng.choice(OPTIONS)])
+        elif r < 0.6:
+            ops.append(list(rng.choice(TOUCH)))
+        else:
+            k += 1
+            ops.append(['rename', rng.choice(('obj', 'att', 'both')),
+                        rng.choice(('fresh:%d' % k, 'rot', 'swap', 'alias:%d' % k, 'none'))])
+    # always end with a rename followed by every miner
+    k += 1
+    ops.append(['rename', 'both', rng.choice(('fresh:%d' % k, 'rot', 'alias:%d' % k))])
+    tail = list(OPTIONS)
+    rng.shuffle(tail)
+    return ops + [['build', o] for o in tail]
+
+
 def gen(tier, seed, boost=False):
     rng = random.Random(seed * 1000003 + 202)
     yield from _corpus()
+    # two-digit indexes (directed; at most LINDIG_CAP concepts each).  They are the costly cases, so they are
+    # interleaved with the cheap history cases (one per ~45) to spread them over the workers' chunks
+    td = []
+    for i, (fam, rows) in enumerate(two_digit_tables(rng, tier)):
+        for orient, r in (('', rows), ('T', _transpose(rows))):
+            bes = BACKENDS if tier == 'thorough' else (BACKENDS[(i + (orient == 'T')) % 3],)
+            for be in bes:
+                codes = [rng.randrange(0, 60)] if fam == 'allpairs' else [0, rng.randrange(1, 60)]
+                td.append(dict(_case(r, be, 'two-digit', codes), fam=fam + orient))
+    td.reverse()
+    # histories: exhaustive small scope
+    k = 0
+    for rows in G.tables_upto(3, 3):
+        for be in BACKENDS:
+            if td and k % 45 == 0:
+                yield td.pop()
+            k += 1
+            yield dict(stream='history', be=be, rows=rows, ops=full_history())
+    while td:
+        yield td.pop()
     for rows in G.tables_upto(3, 3):
         for be in BACKENDS:
             yield _case(rows, be, 'exhaustive', [0, 1, rng.randrange(2, 40)])
     if tier == 'thorough' or boost:
-        for rows in G.tables_upto(4, 4, cells=12):
+        for k, rows in enumerate(G.tables_upto(4, 4, cells=12)):
             if len(rows) <= 3 and len(rows[0]) <= 3:
                 continue
-            for be in BACKENDS:
+            # a boosted quick run (drifted source) visits every table once, cycling through the backends
+            for be in (BACKENDS if tier == 'thorough' else (BACKENDS[k % 3],)):
                 yield _case(rows, be, 'exhaustive-large', [0, rng.randrange(1, 40)])
     nrand = 160 if tier == 'quick' else 1500
     if boost:
-        nrand *= 3
+        nrand *= 2
     big = 7 if tier == 'quick' else 10
     for k in range(nrand):
         rows = G.random_table(rng, big, big)
@@ -95,15 +202,96 @@ def gen(tier, seed, boost=False):
             yield _case(rows, be, 'random', [0, rng.randrange(1, 60), rng.randrange(1, 60)])
         if k % 8 == 0:
             yield dict(stream='malformed', be=rng.choice(BACKENDS), rows=rows, codes=[0], bad_algo=rng.choice(['cbo', 'FCbO', '']))
+        if k % 2 == 0:
+            hr = G.random_table(rng, big, big)
+            if k % 16 == 0:   # a history on a table with two-digit indexes on one side
+                hw = rng.randint(2, 4)
+                hr = [[int(rng.random() < 0.5) for _ in range(hw)] for _ in range(rng.randint(13, 16))]
+                if k % 32 == 0:
+                    hr = _transpose(hr)
+            yield dict(stream='history-random', be=rng.choice(BACKENDS), rows=hr, ops=random_history(rng, rng.randint(3, 9)))
 
 
 def _rec(c):
     return [ints(c.extent_i), ints(c.intent_i), [str(x) for x in c.extent], [str(x) for x in c.intent]]
 
 
-def impl(c):
+def _miners(K, lmax):
     from fcapy.lattice import ConceptLattice
     from fcapy.algorithms import concept_construction as cca
+    return {
+        'default': lambda: ConceptLattice.from_context(K),
+        'CbO': lambda: ConceptLattice.from_context(K, algo='CbO'),
+        'Lindig': lambda: ConceptLattice.from_context(K, algo='Lindig'),
+        'LindigT': lambda: ConceptLattice.from_context(K, algo='Lindig', iterate_extents=True),
+        'LindigF': lambda: ConceptLattice.from_context(K, algo='Lindig', iterate_extents=False),
+        'Sofia': lambda: ConceptLattice.from_context(K, algo='Sofia', L_max=lmax),
+        'lindigT': lambda: cca.lindig_algorithm(K, iterate_extents=True),
+        'lindigF': lambda: cca.lindig_algorithm(K, iterate_extents=False),
+        'cbo': lambda: cca.close_by_one(K),
+        'obj': lambda: cca.close_by_one_objectwise(K),
+        'fba': lambda: cca.close_by_one_objectwise_fbarray(K),
+        'sofia': lambda: cca.sofia(K, L_max=lmax),
+    }
+
+
+def _run_opt(opts, name, lmax):
+    if lmax > LINDIG_CAP and name in LINDIG_OPTS:
+        return {'skipped': True}
+    try:
+        return {'ok': [_rec(x) for x in opts[name]()]}
+    except Exception as e:
+        return {'err': exc_name(e), 'msg': str(e)[:200]}
+
+
+def _new_names(cur, tag, prefix):
+    cur = list(cur)
+    if tag.startswith('fresh:') or tag.startswith('alias:'):
+        return ['%s%s_%d' % (prefix, tag.split(':')[1], i) for i in range(len(cur))]
+    if tag == 'rot':
+        return cur[1:] + cur[:1]
+    if tag == 'swap':
+        return cur[1:2] + cur[:1] + cur[2:]
+    return cur      # 'none': re-assign the same names
+
+
+def _impl_history(c):
+    """one context object; every build is recorded together with the names the context carries at that moment"""
+    from fcapy.context import FormalContext
+    rows = c['rows']
+    n, m = len(rows), len(rows[0])
+    K = FormalContext(data=[[bool(v) for v in r] for r in rows], object_names=OBJ[:n], attribute_names=ATT[:m],
+                      backend=c['be'])
+    lmax = n_concepts(rows)
+    opts = _miners(K, lmax)
+    hist = []
+    for op in c['ops']:
+        if op[0] == 'build':
+            r = _run_opt(opts, op[1], lmax)
+            r.update(opt=op[1], objs=[str(x) for x in K.object_names], attrs=[str(x) for x in K.attribute_names])
+            hist.append(r)
+        elif op[0] == 'T':
+            K.T
+        elif op[0] == 'TT':
+            K.T.T
+        elif op[0] == 'hash':
+            K.hash_fixed()
+        elif op[0] == 'rename':
+            for which, attr, prefix in (('obj', 'object_names', 'o'), ('att', 'attribute_names', 'm')):
+                if op[1] in (which, 'both'):
+                    new = _new_names(getattr(K, attr), op[2], prefix)
+                    setattr(K, attr, new)
+                    if op[2].startswith('alias:'):
+                        # the caller keeps and mutates the list object it passed to the setter
+                        new.reverse()
+                        new.append('zz')
+    return {'lmax': lmax, 'hist': hist}
+
+
+def impl(c):
+    if 'ops' in c:
+        return _impl_history(c)
+    from fcapy.lattice import ConceptLattice
     rows = c['rows']
     n, m = len(rows), len(rows[0])
     K = make_context(rows, c['be'], OBJ[:n], ATT[:m])
@@ -113,51 +301,81 @@ def impl(c):
         except Exception as e:
             return {'bad': {'err': exc_name(e)}}
     lmax = n_concepts(rows)
-    opts = {
-        'default': lambda: ConceptLattice.from_context(K),
-        'CbO': lambda: ConceptLattice.from_context(K, algo='CbO'),
-        'Lindig': lambda: ConceptLattice.from_context(K, algo='Lindig'),
-        'Sofia': lambda: ConceptLattice.from_context(K, algo='Sofia', L_max=lmax),
-        'lindigT': lambda: cca.lindig_algorithm(K, iterate_extents=True),
-        'lindigF': lambda: cca.lindig_algorithm(K, iterate_extents=False),
-        'cbo': lambda: cca.close_by_one(K),
-        'obj': lambda: cca.close_by_one_objectwise(K),
-        'fba': lambda: cca.close_by_one_objectwise_fbarray(K),
-        'sofia': lambda: cca.sofia(K, L_max=lmax),
-    }
+    opts = _miners(K, lmax)
     out = {'lmax': lmax}
     for name in OPTIONS:
-        if lmax > LINDIG_CAP and name in LINDIG_OPTS:
-            out[name] = {'skipped': True}
-            continue
-        try:
-            out[name] = {'ok': [_rec(x) for x in opts[name]()]}
-        except Exception as e:
-            out[name] = {'err': exc_name(e), 'msg': str(e)[:200]}
+        # a shrunk case may be restricted to the miners listed in 'only'
+        out[name] = _run_opt(opts, name, lmax) if name in c.get('only', OPTIONS) else {'skipped': True}
     return out
+
+
+def _pairs(r):
+    return [[x[0], x[1]] for x in r['ok']] if 'ok' in r else []
 
 
 def requests(c, io):
     rows = c['rows']
     n, m = len(rows), len(rows[0])
+    if 'ops' in c:
+        return [dict(op='C02.judge', rows=rows, w=m, lists=[_pairs(r) for r in io.get('hist', [])])]
+    if c.get('lite'):      # shrunk cases: the implementation's lists against the oracle only (no model runs)
+        return [dict(op='C02.judge', rows=rows, w=m, lists=[_pairs(io.get(name, {})) for name in OPTIONS])]
     base = dict(be=SHORT[c['be']], rows=rows, w=m, objs=OBJ[:n], attrs=ATT[:m])
     lmax = io.get('lmax', n_concepts(rows))
     run = dict(base, op='C02.run', lmax=lmax, codes=c.get('codes', [0]), nolindig=lmax > LINDIG_CAP)
-    lists = []
-    for name in OPTIONS:
-        r = io.get(name, {})
-        lists.append([[x[0], x[1]] for x in r['ok']] if 'ok' in r else [])
-    return [run, dict(op='C02.judge', rows=rows, w=m, lists=lists)]
+    return [run, dict(op='C02.judge', rows=rows, w=m, lists=[_pairs(io.get(name, {})) for name in OPTIONS])]
 
 
 def _keys(cs):
     return sorted((sorted(x[0]), sorted(x[1])) for x in cs)
 
 
+def _judge_list(name, r, verdict, objs, attrs, nwant, where=''):
+    """one returned concept list against the oracle's verdict and the names the context carries"""
+    if 'skipped' in r:
+        return None
+    if 'err' in r:
+        return dict(ok=False, kind='property', opt=name, what='err:' + r['err'],
+                    detail=f'{where}{name} raised {r["err"]}: {r.get("msg", "")}')
+    sound, nodup, complete = verdict
+    if not (sound and nodup and complete):
+        what = 'unsound' if not sound else ('duplicate' if not nodup else 'incomplete')
+        return dict(ok=False, kind='property', opt=name, what=what,
+                    detail=f'{where}{name}: {what}; returned {len(r["ok"])} concepts {_keys(r["ok"])[:12]}, {nwant} exist')
+    for x in r['ok']:
+        if any(i >= len(objs) for i in x[0]) or any(j >= len(attrs) for j in x[1]):
+            return dict(ok=False, kind='property', opt=name, what='views', detail=f'{where}{name}: index out of range in {x[:2]}')
+        en, inn = [objs[i] for i in x[0]], [attrs[j] for j in x[1]]
+        if sorted(en) != sorted(x[2]) or sorted(inn) != sorted(x[3]) or len(set(x[0])) != len(x[0]) \
+                or len(set(x[1])) != len(x[1]):
+            return dict(ok=False, kind='property', opt=name, what='views',
+                        detail=f'{where}{name}: name view {x[2]}/{x[3]} does not denote the index view {x[0]}/{x[1]} '
+                               f'(the context\'s names are {objs} / {attrs})')
+    return None
+
+
 def judge(c, io, rep):
-    run, jd = rep
     rows = c['rows']
     n, m = len(rows), len(rows[0])
+    if 'ops' in c:
+        jd = rep[0]
+        if io['lmax'] != jd['n']:
+            return dict(ok=False, kind='harness', detail=f'harness counted {io["lmax"]} concepts, the oracle {jd["n"]}')
+        for k, (r, v) in enumerate(zip(io['hist'], jd['verdicts'])):
+            bad = _judge_list(r['opt'], r, v, r['objs'], r['attrs'], jd['n'], where=f'build #{k} of the history: ')
+            if bad:
+                return bad
+        return dict(ok=True)
+    if c.get('lite'):
+        jd = rep[0]
+        if io['lmax'] != jd['n']:
+            return dict(ok=False, kind='harness', detail=f'harness counted {io["lmax"]} concepts, the oracle {jd["n"]}')
+        for name, v in zip(OPTIONS, jd['verdicts']):
+            bad = _judge_list(name, io[name], v, OBJ[:n], ATT[:m], jd['n'])
+            if bad:
+                return bad
+        return dict(ok=True)
+    run, jd = rep
     if 'bad_algo' in c:
         if io['bad'] == run['other']:
             return dict(ok=True)
@@ -170,7 +388,7 @@ def judge(c, io, rep):
     per_code = run['orders']
     capped = io['lmax'] > LINDIG_CAP
     for o in per_code:
-        for k in ('lindigT', 'lindigF', 'sofia', 'default', 'Lindig', 'Sofia'):
+        for k in ('lindigT', 'lindigF', 'sofia', 'default', 'Lindig', 'LindigT', 'LindigF', 'Sofia'):
             r = o[k]
             if capped and k in LINDIG_OPTS:
                 continue
@@ -182,23 +400,10 @@ def judge(c, io, rep):
         if 'ok' not in r or _keys(r['ok']) != [(a, b) for a, b in want]:
             return dict(ok=False, kind='harness', detail=f'model {k} differs from the oracle: {str(r)[:200]}')
     # 2. the implementation against the oracle (verdicts computed in Lean) and the name views
-    for name, (sound, nodup, complete) in zip(OPTIONS, jd['verdicts']):
-        r = io[name]
-        if 'skipped' in r:
-            continue
-        if 'err' in r:
-            return dict(ok=False, kind='property', opt=name, what='err:' + r['err'],
-                        detail=f'{name} raised {r["err"]}: {r.get("msg", "")}')
-        if not (sound and nodup and complete):
-            what = 'unsound' if not sound else ('duplicate' if not nodup else 'incomplete')
-            return dict(ok=False, kind='property', opt=name, what=what,
-                        detail=f'{name}: {what}; returned {_keys(r["ok"])[:12]} expected {want[:12]}')
-        for x in r['ok']:
-            en, inn = [OBJ[i] for i in x[0]], [ATT[j] for j in x[1]]
-            if sorted(en) != sorted(x[2]) or sorted(inn) != sorted(x[3]) or len(set(x[0])) != len(x[0]) \
-                    or len(set(x[1])) != len(x[1]):
-                return dict(ok=False, kind='property', opt=name, what='views',
-                            detail=f'{name}: name view {x[2]}/{x[3]} does not denote the index view {x[0]}/{x[1]}')
+    for name, v in zip(OPTIONS, jd['verdicts']):
+        bad = _judge_list(name, io[name], v, OBJ[:n], ATT[:m], len(want))
+        if bad:
+            return bad
     # 3. order-level correspondence where Python's order is deterministic
     for name in ORDERED:
         if 'skipped' in io[name]:
@@ -214,32 +419,68 @@ def nontrivial(c):
 
 
 def key(c):
-    return [c['rows'], c['be'], c.get('bad_algo')]
+    return [c['rows'], c['be'], c.get('bad_algo'), c.get('ops')]
 
 
 def branch(c, io, rep):
     n, m = len(c['rows']), len(c['rows'][0])
     shape = 'wide' if n < m else ('tall' if n > m else 'square')
     k = io.get('lmax', 0)
-    return [c['stream'], c['be'], 'shape:' + shape, 'lindig:' + ('skipped' if k > LINDIG_CAP else 'run'), 'concepts:' + ('1' if k <= 1 else '2-4' if k <= 4 else '5-16' if k <= 16 else '17+')]
+    out = [c['stream'], c['be'], 'shape:' + shape, 'lindig:' + ('skipped' if k > LINDIG_CAP else 'run'),
+           'concepts:' + ('1' if k <= 1 else '2-4' if k <= 4 else '5-16' if k <= 16 else '17+'),
+           'maxdim:' + ('<=9' if max(n, m) <= 9 else '10-12' if max(n, m) <= 12 else '13+'),
+           'mindim:' + ('13+' if min(n, m) >= 13 else '<13')]
+    if 'fam' in c:
+        out.append('two-digit:' + c['fam'])
+    if 'ops' in c:
+        out.append('history:renames=%d' % min(3, sum(1 for o in c['ops'] if o[0] == 'rename')))
+    return out
 
 
 def signature(c, io, rep, v):
     return f"C02:{v.get('opt', '?')}:{c['be']}:{v.get('what', v.get('kind'))}"
 
 
+def _chunks(k):
+    """index blocks to delete: halves, quarters, ... then (for short axes) single indexes"""
+    out, size = [], k // 2
+    while size >= 2:
+        out += [list(range(a, min(k, a + size))) for a in range(0, k, size)]
+        size //= 2
+    if k <= 24:
+        out += [[i] for i in range(k)]
+    else:
+        out += [[i] for i in range(0, k, max(1, k // 12))]
+    return out
+
+
 def shrink(c):
+    """best-first and short candidate lists: the runner evaluates whole batches, and big tables are costly"""
     rows = c['rows']
     n, m = len(rows), len(rows[0])
+    if 'bad_algo' in c:
+        return
+    if 'ops' in c:
+        ops = c['ops']
+        for blk in _chunks(len(ops)):
+            yield dict(c, ops=[o for i, o in enumerate(ops) if i not in blk])
+    elif 'only' not in c:
+        # first find the miner that fails; from then on only that miner and only the oracle are run
+        for o in OPTIONS:
+            yield dict(c, lite=True, only=[o])
+        return
     if n > 1:
-        for i in range(n):
-            yield dict(c, rows=rows[:i] + rows[i + 1:])
+        for blk in _chunks(n):
+            if len(blk) < n:
+                yield dict(c, rows=[r for i, r in enumerate(rows) if i not in blk])
     if m > 1:
-        for j in range(m):
-            yield dict(c, rows=[r[:j] + r[j + 1:] for r in rows])
-    for i in range(n):
-        for j in range(m):
-            if rows[i][j]:
-                r2 = [list(r) for r in rows]
-                r2[i][j] = 0
-                yield dict(c, rows=r2)
+        for blk in _chunks(m):
+            if len(blk) < m:
+                yield dict(c, rows=[[v for j, v in enumerate(r) if j not in blk] for r in rows])
+    if n * m <= 40:
+        for i in range(n):
+            for j in range(m):
+                if rows[i][j]:
+                    r2 = [list(r) for r in rows]
+                    r2[i][j] = 0
+                    yield dict(c, rows=r2)
